@@ -155,7 +155,7 @@ def run(ctx, R, tier):
     # ---- attenuation and the mono fold-down (shape of SpatialData::spatialize)
     if sb is not None:
         from ..paths import switch_info
-        mul = [(x, t) for x, t in sb.calls() if (callee_path(t) or '').endswith('::mul_assign') and 'frame::Frame' in (callee_path(t) or '')]
+        mul = [(x, t) for x, t in sb.calls() if (callee_path(t) or '').split('::')[-1] in ('mul_assign', 'mul') and 'frame::Frame' in (callee_path(t) or '')]
         att = [(x, t) for x, t in mul if 'Sub(1.0, track::sub::spatial_builder::SpatialTrackDistances::relative_distance(' in describe(sb, t['args'][1], depth=14, at=x)
                and 'Decibels::as_amplitude(' in describe(sb, t['args'][1], depth=14, at=x)
                and 'interpolate(const decibels::Decibels::SILENCE, const decibels::Decibels::IDENTITY' in describe(sb, t['args'][1], depth=14, at=x)]
